@@ -68,7 +68,9 @@ class Exec(ExprMixin, StmtMixin, CallMixin, ContractMixin):
         self.cur_name = qualname
         self.cur_qual = qualname
         meta = dict(qualname=qualname, kind=decl.kind, file=None, source_hash=None, paths=0)
-        found = self.repo.find(qualname)
+        # "<qualname>@<view>": a second, more detailed contract of the same function, verified on its own; callers keep using the
+        # contract registered under the plain name
+        found = self.repo.find(qualname.split("@")[0])
         if found is None:
             self.obls.append(Obligation(qualname + "#shape:function-exists", "shape", [], z3.BoolVal(False),
                                         info=dict(reason="function not found in /repo")))
@@ -119,7 +121,7 @@ class Exec(ExprMixin, StmtMixin, CallMixin, ContractMixin):
             a, b = pre
             st.assume(env[a].t != env[b].t)
         body_env = dict(env)
-        body_env.update({"__mod__": mod, "__cls__": cinfo, "__qual__": qualname})
+        body_env.update({"__mod__": mod, "__cls__": cinfo, "__qual__": qualname.split("@")[0]})
         if is_method:
             body_env["__selfname__"] = real[0]
         st.frames = [body_env]
